@@ -213,15 +213,36 @@ def rule_scipy(ctx, repo):
     ctx.check(ok, "C16.factorise", "SciPySolver.__init__", "first call factorises", "fresh solver would solve with no factorisation", i.W())
     # CCS contract
     c = F.function(repo, SC, "spmatrix_to_csc")
-    e = Q.first("$ccs = $A.CCS", c.fn)[1]
-    ok = e is not None
-    if ok:
-        d = Q.first("$data = np.array($ccs[2]).ravel()", c.fn, e)[1]
-        i_ = Q.first("$ind = np.array($ccs[1]).ravel()", c.fn, d)[1] if d else None
-        p = Q.first("$ptr = np.array($ccs[0]).ravel()", c.fn, i_)[1] if i_ else None
-        ok = p is not None and (Q.has("csc_matrix(($data, $ind, $ptr), shape=$s)", c.fn, p))
-    ctx.check(ok, "C16.ccs", "spmatrix_to_csc", "csc_matrix((CCS[2], CCS[1], CCS[0]), shape) = (values, row indices, col pointers)",
-              "kvxopt CCS fields (colptr, rowind, values) are not mapped to csc_matrix((data, indices, indptr))", c.W())
+    # decided by evaluation (engine/tinyexec.py) with tagged stand-ins for the three CCS arrays
+    from engine.tinyexec import TinyExec, Fake
+    from engine.ordertype import Unsupported
+
+    class _Arr(Fake):
+        def __init__(self, tag):
+            self.tag = tag
+
+        def ravel(self):
+            return _Arr(self.tag)
+
+    class _Mat(Fake):
+        CCS = (_Arr("colptr"), _Arr("rowind"), _Arr("values"))
+        size = (3, 4)
+    seen = []
+
+    def _csc(arg, shape=None, **kw):
+        seen.append((tuple(getattr(x, "tag", x) for x in arg) if isinstance(arg, tuple) else arg, shape))
+        return "csc"
+    stubs = {"np.array": lambda x, **k_: _Arr(x.tag) if isinstance(x, _Arr) else x, "np.asarray": lambda x, **k_: _Arr(x.tag) if isinstance(x, _Arr) else x,
+             "np.ravel": lambda x: _Arr(x.tag) if isinstance(x, _Arr) else x, "csc_matrix": _csc}
+    try:
+        ret = TinyExec(repo, None, SC, stubs=stubs).call_function(c.fn, [_Mat()], {})
+        ok = ret == "csc" and seen == [(("values", "rowind", "colptr"), (3, 4))]
+    except Unsupported as ex:
+        ctx.undecided("C16.ccs", "spmatrix_to_csc", "evaluator: %s" % ex, c.W())
+        ok = None
+    if ok is not None:
+        ctx.check(ok, "C16.ccs", "spmatrix_to_csc", "csc_matrix((CCS[2], CCS[1], CCS[0]), shape) = (values, row indices, col pointers)",
+                  "kvxopt CCS fields (colptr, rowind, values) are not mapped to csc_matrix((data, indices, indptr)): got %s" % (seen,), c.W())
 
 
 def rule_refresh(ctx, repo):
@@ -288,9 +309,10 @@ def rule_facade(ctx, repo):
     # both routines honour config.linsolve symmetrically
     for cname, meth, path, cfg in (("PFlow", "nr_step", PFLOW, "self.config.linsolve"), ("ImplicitIter", "step", DAEINT, "tds.config.linsolve")):
         f = F.method(repo, cname, meth, path)
-        t = f.tests(lambda c: c.replace(" ", "") == "not" + cfg)
-        ok = bool(t) and any(f.g.guarded_by(n, t[0], "true") for n in f.calls("solver.solve")) and \
-            any(f.g.guarded_by(n, t[0], "false") for n in f.calls("solver.linsolve"))
+        # truth table of the enclosing conditions: the cached entry point only with linsolve off, the one-shot one only with it on
+        sol, lin = f.calls("solver.solve"), f.calls("solver.linsolve")
+        ok = bool(sol and lin) and all(Q.sat_atom_values(f.fn, f.g.data(n)["ast"], cfg) == {False} for n in sol) and \
+            all(Q.sat_atom_values(f.fn, f.g.data(n)["ast"], cfg) == {True} for n in lin)
         ctx.check(ok, "C16.facade", "%s.%s/linsolve-switch" % (cname, meth), "solve when not linsolve, else linsolve",
                   "config.linsolve no longer selects between the cached and the one-shot entry point", f.W())
 
